@@ -88,7 +88,7 @@ def classify(res, case):
     return out
 
 
-PLAN = e1prop.Plan('C12', ROWS, cfgs=('v6', 'v7', 'v6-nosec', 'v7-virt', 'v7-vmsa'), classify=classify, tweak_case=tweak, case_kw=case_kw,
+PLAN = e1prop.Plan('C12', ROWS, cfgs=('v6', 'v7', 'v6-nosec', 'v7-virt', 'v7-vmsa', 'v7-virt-hsr', 'v7-virt-hsr2'), classify=classify, tweak_case=tweak, case_kw=case_kw,
                    hooked=(False, True))
 
 
